@@ -118,7 +118,7 @@ func c06dQueryLine(st *trie.SlimTrie, spec *EncSpec, q string) string {
 
 func init() {
 	register("C06d", func(c *Ctx) {
-		c.Or.Rule = "key sets: one PRNG stream from VERIF_SEED; fixed sets (empty, single, empty key, keys that are prefixes of keys, half-byte prefixes, more than 32 and more than 64 stored prefixes, long shared prefixes) + the shared kinds (" +
+		c.Or.Rule = "key sets: one PRNG stream from VERIF_SEED; fixed sets (empty, single, empty key, keys that are prefixes of keys, half-byte prefixes, more than 32 and more than 64 stored prefixes, long shared prefixes, key counts 63/64/65/127/128/129/64k) + the shared kinds (" +
 			strings.Join(kindNames, "/") + ") + the C06 kinds (" + strings.Join(c06KindNames, "/") + "); values = fixed-width numbers with encoder I32/U32/I16/I64/I8 (round robin); every set is written in each of the 6 single-section layout variants (b0510-*/b0511-* x nopref/innpref/allpref) by the reference writer, parsed unconverted, and loaded by the real Unmarshal; " +
 			"archived 0.5.10 fixtures with at most 2000 keys are parsed and loaded as they are; a case = (variant, encoder, keys, values); non-trivial = at least 2 keys; distinct = distinct (variant, encoder, keys, values)"
 		layouts := []*c06Layout{}
@@ -152,6 +152,17 @@ func init() {
 			{"many-prefixes(>32 elements: second select-index entry)", manyPrefixes(40)},
 			{"many-prefixes(position bitmap > 64 bits)", manyPrefixes(70)},
 			{"many-prefixes(position bitmap > 128 bits, 3 select-index entries)", manyPrefixes(100)},
+		}
+		// key counts around the multiples of 64: leaf and node counts that fill their bitmap words exactly
+		{
+			r := c.R.Fork()
+			for _, n := range []int{63, 64, 65, 127, 128, 129, 64 * (3 + r.Intn(5))} {
+				ks := make([]string, n)
+				for i := range ks {
+					ks[i] = fmt.Sprintf("%04d", i*3)
+				}
+				sets = append(sets, gen{"count-mod-64", ks})
+			}
 		}
 		nsets := c.N(70, 900)
 		for i := 0; len(sets) < nsets; i++ {
